@@ -441,7 +441,13 @@ func (p *Parser) parseStrictTermArg(curObj *Object) (*Object, parseResult) {
 	_, _ = p.nextOpcode()
 	termObj = p.objTree.newObject(nextOp, p.tableHandle)
 	termObj.amlOffset = curOffset
+
+	// Attach termObj to curObj while its own operands are parsed so that
+	// name lookups for nested operands can walk up the tree; the caller
+	// attaches the returned object at its final position.
+	p.objTree.append(curObj, termObj)
 	res = p.parseObjectArgs(termObj)
+	p.objTree.detach(curObj, termObj)
 	if p.r.EOF() {
 		p.popPkgEnd()
 	}
